@@ -430,6 +430,11 @@ impl Prop for C07 {
     fn phases(&self, tier: Tier) -> Vec<Phase<Case>> {
         style_phases(tier, 10)
     }
+    fn on_worker_death(&self, _c: &Case, why: &str) -> Verdict {
+        // a crash (e.g. the stack overflow of a mixin that includes itself) is C01's subject; this property speaks
+        // about the output of compilations that return
+        Verdict::discard(format!("worker died, not judged here: {}", why.chars().take(80).collect::<String>()))
+    }
     fn check(&self, c: &Case) -> Verdict {
         check_case(c).0
     }
